@@ -224,7 +224,8 @@ class Model:
           pos = anchor_w - rot(a, quat)
         contrib.append((k, axis_w, anchor_w, qdv))
         d += 1
-      # velocity of the link origin (exact for single-joint links; stacked joints are outside the claim)
+      # velocity of the link origin: every joint of the stack moves the final origin rigidly about its own
+      # (world) axis / anchor as they stood when the joint was applied
       w = pw
       v = pv + cross(pw, pos - pp)
       for k, axis_w, anchor_w, qdv in contrib:
@@ -311,16 +312,20 @@ def _diag(v):
 # velocity-product accelerations (all joint accelerations zero) and the bias force by projecting
 # Newton-Euler onto the joint-space Jacobians -- independent of any recursive formulation.
 def bias_accelerations(self):
-  """Per link (pos, quat, w, v_origin, alpha, a_origin) with qdd = 0; single-joint and free links."""
+  """Per link (pos, quat, w, v_origin, alpha, a_origin) with qdd = 0.  A stack of joints is the chain of
+  massless intermediate frames it denotes (MuJoCo applies a body's joints in order, each in the frame
+  left by the previous one, all about the body's anchor): the single-joint step is applied per joint,
+  the body offset entering before the first one only."""
   out = []
   d = 0
   z3 = asarr([0, 0, 0])
+  ident = asarr([1, 0, 0, 0])
   for i, l in enumerate(self.links):
     p = l['parent']
     if p < 0:
-      pp, pq, pw, pv, pal, pa = z3, asarr([1, 0, 0, 0]), z3, z3, z3, z3
+      fr = (z3, ident, z3, z3, z3, z3)
     else:
-      pp, pq, pw, pv, pal, pa = out[p]
+      fr = out[p]
     if l['joints'] == ('f',):
       qi = sum(7 if self.links[k]['joints'] == ('f',) else len(self.links[k]['joints']) for k in range(i))
       pos, quat = self.q[qi:qi + 3], self.q[qi + 3:qi + 7]
@@ -328,38 +333,39 @@ def bias_accelerations(self):
       out.append((pos, quat, w, self.qd[d:d + 3], cross(w, w) * 0, z3 * 1))
       d += 6
       continue
-    if len(l['joints']) != 1:
-      raise ValueError('bias reference supports single-joint links only')
-    k = l['joints'][0]
-    B = pp + rot(self.bpos[i], pq)                     # body origin before the joint, fixed in the parent
-    qb = qmul(pq, self.bquat[i])
-    rB = B - pp
-    vB = pv + cross(pw, rB)
-    aB = pa + cross(pal, rB) + cross(pw, cross(pw, rB))
-    axis_w = rot(self.axis[d], qb)
-    qv, qdv = self.q[self.q_index[d]], self.qd[d]
-    if k == 's':
-      disp = axis_w * qv
-      pos, quat = B + disp, qb
-      w, al = pw, pal
-      v = vB + cross(pw, disp) + axis_w * qdv
-      a = aB + cross(pal, disp) + cross(pw, cross(pw, disp)) + 2 * cross(pw, axis_w * qdv)
-    else:
-      s_, c_ = self.trig[d]
-      quat = qmul(qb, np.array([c_] + [x * s_ for x in self.axis[d]], dtype=object))
-      A = B + rot(self.anchor[i], qb)                  # anchor, fixed in the parent
-      rA = A - pp
-      vA = pv + cross(pw, rA)
-      aA = pa + cross(pal, rA) + cross(pw, cross(pw, rA))
-      wj = axis_w * qdv
-      w = pw + wj
-      al = pal + cross(pw, wj)
-      pos = A - rot(self.anchor[i], quat)
-      r = pos - A
-      v = vA + cross(w, r)
-      a = aA + cross(al, r) + cross(w, cross(w, r))
-    out.append((pos, quat, w, v, al, a))
-    d += 1
+    for jn, k in enumerate(l['joints']):
+      pp, pq, pw, pv, pal, pa = fr
+      bpos, bquat = (self.bpos[i], self.bquat[i]) if jn == 0 else (z3, ident)
+      B = pp + rot(bpos, pq)                     # frame origin before the joint, fixed in the previous frame
+      qb = qmul(pq, bquat)
+      rB = B - pp
+      vB = pv + cross(pw, rB)
+      aB = pa + cross(pal, rB) + cross(pw, cross(pw, rB))
+      axis_w = rot(self.axis[d], qb)
+      qv, qdv = self.q[self.q_index[d]], self.qd[d]
+      if k == 's':
+        disp = axis_w * qv
+        pos, quat = B + disp, qb
+        w, al = pw, pal
+        v = vB + cross(pw, disp) + axis_w * qdv
+        a = aB + cross(pal, disp) + cross(pw, cross(pw, disp)) + 2 * cross(pw, axis_w * qdv)
+      else:
+        s_, c_ = self.trig[d]
+        quat = qmul(qb, np.array([c_] + [x * s_ for x in self.axis[d]], dtype=object))
+        A = B + rot(self.anchor[i], qb)                  # anchor, fixed in the previous frame
+        rA = A - pp
+        vA = pv + cross(pw, rA)
+        aA = pa + cross(pal, rA) + cross(pw, cross(pw, rA))
+        wj = axis_w * qdv
+        w = pw + wj
+        al = pal + cross(pw, wj)
+        pos = A - rot(self.anchor[i], quat)
+        r = pos - A
+        v = vA + cross(w, r)
+        a = aA + cross(al, r) + cross(w, cross(w, r))
+      fr = (pos, quat, w, v, al, a)
+      d += 1
+    out.append(fr)
   return out
 
 
